@@ -19,7 +19,7 @@ func profStat(en *Env) {
 	for t := 0; t < traces; t++ {
 		cfg := h.CoverCfg(en.R, t, limits)
 		same := cfg
-		randomWorkload(en, cfg, 3+en.R.Intn(5), genOpts{batches: true, merges: true, restarts: true, ops: ops, prof: "stat"},
+		randomWorkload(en, cfg, 3+en.R.Intn(5), genOpts{batches: true, merges: true, restarts: true, backups: t%2 == 1, ops: ops, prof: "stat"},
 			func() h.Cfg { return same })
 	}
 	en.Summary["traces"] = traces
